@@ -236,6 +236,7 @@ type ModRegion struct {
 	Comp   *Comp
 	Ref    string // obj or ref
 	Lo, Hi string // absolute index range for compElem (half-open)
+	ConstLen int  // >0: Hi-Lo is this literal (quantifier-free havoc possible)
 }
 
 func (m ModRegion) contains(o, p string) string {
